@@ -60,7 +60,7 @@ def checkPar (op : String) : Rd Verdict := do
   let ta ← rdTrip; let tb ← rdTrip
   let ents ← rdVec
   let np ← rdNat
-  let dims ← (List.range np).mapM fun _ => (List.range 8).mapM fun _ => rdInt
+  let dims ← (List.range np).mapM fun _ => (List.range 16).mapM fun _ => rdInt
   let path := s!"C06/par/{op}" ++ (if tap != 0 then "/tap" else "")
   let feats := [op, s!"np{np}", if tap != 0 then "tap" else "std", s!"style{style}"] ++
                (if ta.isEmpty || tb.isEmpty then ["trivial"] else [])
@@ -79,6 +79,11 @@ def checkPar (op : String) : Rd Verdict := do
       return specFail (path ++ "/spec/global_dims") s!"reported={d.getD 0 0}x{d.getD 1 0} expected={wr}x{wc}" feats
   if (dims.map fun d => d.getD 2 0).sum != (wr : Int) then
     return specFail (path ++ "/spec/local_rows_sum") s!"sum of local rows != {wr}" feats
+  -- the partition object handed to the result describes the result: its row blocks are the left factor's row blocks (column
+  -- blocks for the transposed product), its column blocks the right factor's column blocks
+  for (d, r) in dims.zipIdx do
+    if d.getD 8 0 != d.getD 12 0 || d.getD 9 0 != d.getD 13 0 || d.getD 10 0 != d.getD 14 0 || d.getD 11 0 != d.getD 15 0 then
+      return specFail (path ++ "/spec/result_partition") s!"rank {r}: partition says rows {d.getD 8 0}+{d.getD 9 0}, columns {d.getD 10 0}+{d.getD 11 0}; the factors give rows {d.getD 12 0}+{d.getD 13 0}, columns {d.getD 14 0}+{d.getD 15 0}" feats
   if got.any (fun e => e.1 ≥ wr || e.2.1 ≥ wc) then
     return specFail (path ++ "/spec/range") "entry outside the global dimensions" feats
   if denseOf got != want then
